@@ -5,52 +5,66 @@ Spec: spec/Equiv.tla (+ MC_C09, Trace_C09).
      buffer), the model-level laws Total / Formula / Inv / Path / Twin / Value (Lorentz on
      Pythagorean rationals) / Gate for every (equivalence, a, b, c, keyword setting).
   2. MC_C09_single / _hist / _sim: TLC generates histories of conversion calls on one object
-     (initial object x requests) with the model's outcome and the formula values of each step.
+     (initial object incl. dtype and shape x requests) with the model's outcome and the formula
+     values of each step.
   3. every history is replayed in real unyt (impl_c09); observed floats are snapped to the
-     specification's symbolic values (library's own constants, rtol 1e-12).
-  4. Trace_C09: TLC evaluates P (Pure, Gate, Total, Formula, Unit, Twin, Inv/Path) on the
+     specification's symbolic values (library's own constants) at the coarser of the input's and
+     the result's precision.
+  4. Trace_C09: TLC evaluates P (Pure, Gate, Total, Formula, Width, Unit, Twin, Inv/Path) on the
      observed steps and compares them with the transition (T).
+Independent TLC runs and trace-validation chunks run concurrently (threads around ck.tlc).
 """
 
+import concurrent.futures as cf
 import json
 import random
 
+import common
 from common import MachineryFailure
 
-_KEYF = ("clause", "eq", "from", "to", "form", "dt", "vsig")
+_KEYF = ("clause", "eq", "from", "to", "form", "dt", "rdt", "vsig")
 
 
-def _validate(ck, cases, traces, label, stats):
-    if not traces:
-        return
+def _check_chunk(ck, part, label, off):
+    path = ck.write_json(f"c09_obs_{label}_{off}.json", part)
+    res = ck.tlc("Trace_C09", "Trace_C09", env={"C09_OBS": path}, workers=1, coverage=False, label=f"trace-validation {label}[{off}]", timeout=3000)
+    expect = 1 + sum(len(t["ev"]) + 1 for t in part)
+    if res.distinct != expect:
+        raise MachineryFailure(f"trace validation consumed {res.distinct} states, expected {expect}")
+    return res
+
+
+def _submit_validation(ck, pool, cases, traces, label, chunk):
     bad = [t for t in traces if "_error" in t]
     if bad:
         raise MachineryFailure("replay error: " + str(bad[0])[:2000])
-    CH = 20000
-    for off in range(0, len(traces), CH):
-        part = traces[off : off + CH]
-        path = ck.write_json(f"c09_obs_{label}_{off}.json", part)
-        res = ck.tlc("Trace_C09", "Trace_C09", env={"C09_OBS": path}, workers=1, coverage=False, label=f"trace-validation {label}", timeout=3000)
-        expect = 1 + sum(len(t["ev"]) + 1 for t in part)
-        if res.distinct != expect:
-            raise MachineryFailure(f"trace validation consumed {res.distinct} states, expected {expect}")
+    out = []
+    for off in range(0, len(traces), chunk):
+        out.append((off, traces[off : off + chunk], pool.submit(_check_chunk, ck, traces[off : off + chunk], label, off)))
+    return (label, cases, out)
+
+
+def _collect(ck, job, stats):
+    label, cases, chunks = job
+    for off, part, fut in chunks:
+        res = fut.result()
         ck.validated(len(part))
         pfail = {(r["tid"], r["l"]) for r in res.by_tag("P-FAIL")}
-        for r in res.by_tag("T-FAIL"):
+        for r in sorted(res.by_tag("T-FAIL"), key=lambda r: (r["tid"], r["l"])):
             if (r["tid"], r["l"]) in pfail:
                 continue  # not P: a verdict already; drift is "P holds but the transition differs"
-            ck.drift_step(f"{r['eq']}:{r['from']}->{r['to']}:{r['en']}", {"model": r["model"], "observed": r["observed"], "case": cases[off + r["tid"] - 1]["init"]["sh"]})
-        for r in res.by_tag("P-FAIL"):
+            c = cases[off + r["tid"] - 1]["init"]
+            ck.drift_step(f"{r['eq']}:{r['from']}->{r['to']}:{r['en']}", {"model": r["model"], "observed": r["observed"], "dt": c["dt"], "sh": c["sh"]})
+        for r in sorted(res.by_tag("P-FAIL"), key=lambda r: (r["tid"], r["l"], r["clause"])):
             key = {k: r[k] for k in _KEYF}
             c = cases[off + r["tid"] - 1]
             ck.violation(key, {"entry": r["en"], "step": r["l"], "k": r["k"], "uin": r["uin"], "uout": r["uout"], "sh": r["sh"], "detail": r["detail"]}, case=c)
-    for t in traces:
-        for e in t["ev"]:
-            stats["steps"] += 1
-            if e["obs"]["k"] == "ok":
-                stats["ok"] += 1
-            else:
-                stats["raise"] += 1
+        for t in part:
+            for e in t["ev"]:
+                stats["steps"] += 1
+                stats["ok" if e["obs"]["k"] == "ok" else "raise"] += 1
+                if e["obs"]["k"] == "ok":
+                    stats["rdt"][e["obs"]["dt"]] = stats["rdt"].get(e["obs"]["dt"], 0) + 1
 
 
 def _cases(res):
@@ -86,88 +100,105 @@ def run(ck):
     ck.level = "model_checking"
     ck.assumptions += [
         "values are symbolic r * prod(const^(e/4)): r from a grid of exact fourth powers x decades 10^-8..10^8 (Lorentz: Pythagorean rationals), so every root is exact; floats never enter TLC",
-        "observed floats are matched to the specification's symbolic values with the library's own constants (unyt.physical_constants, long names) at 40 digits, rtol 1e-12 (float64)",
-        "54 unit spellings (SI, prefixed, CGS, compound, other) of 13 dimensions; no offset (degC/degF) units; dtypes float64 and int64 (int64 only in coherent SI units); shapes quantity / array / contiguous view / strided view",
+        "observed floats are matched to the specification's symbolic values with the library's own constants (unyt.physical_constants, long names) at 40 digits; rtol = the coarsest float type an object of the history had: 1e-12 (float64/complex128, integers), 1e-5 (float32/complex64), 2e-2 (float16)",
+        "a number claim is made only where the formula value, in the result's unit, lies in the normal range (margin 4) of the result's float type",
+        "54 unit spellings (SI, prefixed, CGS, compound, other) of 13 dimensions; no offset (degC/degF) units; 13 dtypes (int8..int64, uint8..uint64, float16/32/64, complex64/128; all but float64 only in coherent SI units with values the dtype holds exactly or to its precision; complex data has zero imaginary part); shapes quantity / array / contiguous view / strided view (views of float and complex buffers only)",
         "keyword settings: defaults (mu=0.6, gamma=5/3 as documented), mu=3/4, gamma=4/3, mu=gamma=7/5; keywords are only passed to equivalences that take them",
-        "known findings are matched on (clause, equivalence, from, to, form, dtype, numbers of the input)",
+        "known findings are matched on (clause, equivalence, from, to, form, dtype, result dtype, numbers of the input)",
     ]
-    stats = {"steps": 0, "ok": 0, "raise": 0}
+    stats = {"steps": 0, "ok": 0, "raise": 0, "rdt": {}}
     if ck.replay:
         blob = json.load(open(ck.replay))
         res = ck.tlc("MC_C09", "MC_C09_laws", workers=1, label="laws (for the tables)", timeout=1800)
         tables = res.by_tag("TABLES")[0]
         cases = [blob["case"]]
         traces = ck.pmap("impl_c09", "observe", cases, nproc=1, common={"tables": tables})
-        _validate(ck, cases, traces, "replay", stats)
+        with cf.ThreadPoolExecutor(1) as pool:
+            _collect(ck, _submit_validation(ck, pool, cases, traces, "replay", 1000), stats)
         return
 
-    # 1. model-level laws of the transcribed branch tables
-    res = ck.tlc("MC_C09", "MC_C09_laws", workers=1, label="laws: Total/Formula/Inv/Path/Twin/Value/Gate on the branch tables", timeout=1800)
-    tables = res.by_tag("TABLES")[0]
-    units = tables["units"]
-    laws = res.by_tag("LAW")
-    if {r["eq"] for r in laws} != set(tables["eqs"]):
-        raise MachineryFailure("laws instance did not cover every equivalence")
-    if any(r["nvals"] == 0 for r in laws):
-        raise MachineryFailure("a covered request has no exactly representable value in the grid")
-    ck.cov["law_instances"] = len(laws)
-    ck.cov["law_value_checks"] = sum(r["nvals"] for r in laws)
-    common = {"tables": tables}
-    nontrivial = set()
-
-    def replay(res, label, sample=None):
-        cases = _cases(res)
-        if sample is not None:
-            cases = sample(cases)
-        if len(cases) < 10:
-            raise MachineryFailure(f"too few histories exported ({label})")
-        ck.sample({"instance": label, "init": {k: cases[len(cases) // 2]["init"][k] for k in ("d", "u", "pi", "dt", "sh")},
-                   "requests": [{k: st[k] for k in ("en", "eq", "k", "tu", "fo")} for st in cases[len(cases) // 2]["h"]]})
-        for c in cases:
-            nontrivial.update(_nontrivial(c, units))
-        traces = ck.pmap("impl_c09", "observe", cases, common=common, chunk_timeout=3000)
-        _validate(ck, cases, traces, label, stats)
-        return len(cases)
-
-    ck.cov["bound"] = {}
-    # 2a. single step, wide alphabet
-    nu = ck.q(3, 6)
-    diag = ck.q(6, 2)
-    cfg = _cfg(ck, "MC_C09_single", "MC_C09_single_run", NUin=nu, NUout=nu, Diag=diag)
-    res = ck.tlc("MC_C09", cfg, workers=1, label=f"single step: all entry points, units rank<={nu} (diagonal {diag}), all values/dtypes/shapes", required_actions=["Next"], timeout=3000)
-    n = replay(res, "single")
-    ck.cov["bound"]["single"] = {"NUin": nu, "NUout": nu, "Diag": diag, "histories": n}
-    # 2b. histories inside one equivalence
-    ml = ck.q(2, 3)
-    cfg = _cfg(ck, "MC_C09_hist", "MC_C09_hist_run", MaxLen=ml, ExportLen=ml, Diag=ck.q(2, 2))
-    res = ck.tlc("MC_C09", cfg, workers=1, label=f"histories of {ml} calls inside one equivalence (copy/in-place/views/repeats)", required_actions=["Next"], timeout=6000)
+    nthreads = max(2, min(8, common.NCPU // 2 + 1))
     rnd = random.Random(ck.seed)
-
-    def thin(cases):
-        # thorough: the depth-3 space is large; keep a seeded sample (deterministic for a given VERIF_SEED)
-        cap = ck.q(10**9, 60000)
-        return cases if len(cases) <= cap else rnd.sample(cases, cap)
-
-    n = replay(res, "hist", thin)
-    ck.cov["bound"]["hist"] = {"MaxLen": ml, "histories_exported": len(res.by_tag("HIST")), "histories_replayed": n}
-    # 2c. beyond the bound: random mixed chains from TLC's simulator
+    nu = ck.q(3, 6)
+    diag = ck.q(8, 3)  # float64/int64 part
+    # the other dtypes: with 3 target spellings per dimension a diagonal of 3 keeps every (equivalence, from, to, dtype,
+    # shape, entry point) combination, each with one of the target spellings
+    diag2 = ck.q(3, 2)
+    ml = ck.q(2, 3)
     depth = ck.q(4, 6)
-    cfg = _cfg(ck, "MC_C09_sim", "MC_C09_sim_run", MaxLen=depth, ExportLen=depth)
-    res = ck.tlc("MC_C09", cfg, workers=1, simulate=ck.q(8, 120), depth=depth + 1, label=f"simulation depth={depth}: mixed chains across equivalences", timeout=3000)
+    cfg_hist = _cfg(ck, "MC_C09_hist", "MC_C09_hist_run", MaxLen=ml, ExportLen=ml, Diag=ck.q(3, 2))
+    cfg_sim = _cfg(ck, "MC_C09_sim", "MC_C09_sim_run", MaxLen=depth, ExportLen=depth)
+    chunk = ck.q(2500, 12000)
+    with cf.ThreadPoolExecutor(nthreads) as pool:
+        # 1. model-level laws of the transcribed branch tables; 2. the three case generators - all four concurrently
+        f_laws = pool.submit(ck.tlc, "MC_C09", "MC_C09_laws", workers=1, label="laws: Total/Formula/Inv/Path/Twin/Value/Gate on the branch tables", timeout=1800)
+        f_single = [pool.submit(ck.tlc, "MC_C09", _cfg(ck, "MC_C09_single", f"MC_C09_single_run{part}", NUin=nu, NUout=nu, Diag=(diag if part == 1 else diag2), Part=part),
+                                workers=1, required_actions=["Next"], timeout=3000,
+                                label=f"single step ({what}): all entry points, units rank<={nu} (diagonal {diag if part == 1 else diag2}), all values/shapes")
+                    for part, what in ((1, "float64/int64"), (2, "the 11 other dtypes"))]
+        f_hist = pool.submit(ck.tlc, "MC_C09", cfg_hist, workers=1, required_actions=["Next"], timeout=6000,
+                             label=f"histories of {ml} calls inside one equivalence (copy/in-place/views/repeats/narrow dtypes)")
+        f_sim = pool.submit(ck.tlc, "MC_C09", cfg_sim, workers=1, simulate=ck.q(8, 80), depth=depth + 1, timeout=3000,
+                            label=f"simulation depth={depth}: mixed chains across equivalences")
+        res = f_laws.result()
+        tables = res.by_tag("TABLES")[0]
+        units = tables["units"]
+        laws = res.by_tag("LAW")
+        if {r["eq"] for r in laws} != set(tables["eqs"]):
+            raise MachineryFailure("laws instance did not cover every equivalence")
+        if any(r["nvals"] == 0 for r in laws):
+            raise MachineryFailure("a covered request has no exactly representable value in the grid")
+        ck.cov["law_instances"] = len(laws)
+        ck.cov["law_value_checks"] = sum(r["nvals"] for r in laws)
+        cm = {"tables": tables}
+        nontrivial = set()
+        ck.cov["bound"] = {}
+        jobs = []
 
-    def fam(cases):
-        # the simulator evaluates the exporting invariant on every successor of the last state: keep a seeded sample per family
-        f = {}
-        for c in cases:
-            f.setdefault(json.dumps([c["init"], [[st[k] for k in ("en", "eq", "k", "tu", "fo")] for st in c["h"][:-1]]], sort_keys=True), []).append(c)
-        return [c for k in sorted(f) for c in rnd.sample(f[k], min(ck.q(12, 20), len(f[k])))]
+        def replay(res, label, sample=None):
+            cases = _cases(res)
+            if sample is not None:
+                cases = sample(cases)
+            if len(cases) < 10:
+                raise MachineryFailure(f"too few histories exported ({label})")
+            mid = cases[len(cases) // 2]
+            ck.sample({"instance": label, "init": {k: mid["init"][k] for k in ("d", "u", "pi", "dt", "sh")},
+                       "requests": [{k: st[k] for k in ("en", "eq", "k", "tu", "fo")} for st in mid["h"]]})
+            for c in cases:
+                nontrivial.update(_nontrivial(c, units))
+            traces = ck.pmap("impl_c09", "observe", cases, common=cm, chunk_timeout=3000)
+            jobs.append(_submit_validation(ck, pool, cases, traces, label, chunk))
+            return cases
 
-    n = replay(res, "sim", fam)
-    ck.cov["bound"]["sim"] = {"depth": depth, "histories": n}
+        def thin(cases):
+            cap = ck.q(10**9, 40000)
+            return cases if len(cases) <= cap else rnd.sample(cases, cap)
+
+        def fam(cases):
+            # the simulator evaluates the exporting invariant on every successor of the last state: keep a seeded sample per family
+            f = {}
+            for c in cases:
+                f.setdefault(json.dumps([c["init"], [[st[k] for k in ("en", "eq", "k", "tu", "fo")] for st in c["h"][:-1]]], sort_keys=True), []).append(c)
+            return [c for k in sorted(f) for c in rnd.sample(f[k], min(ck.q(12, 20), len(f[k])))]
+
+        r_hist = f_hist.result()
+        cs = replay(r_hist, "hist", thin)
+        ck.cov["bound"]["hist"] = {"MaxLen": ml, "histories_exported": len(r_hist.by_tag("HIST")), "histories_replayed": len(cs)}
+        cs = replay(f_sim.result(), "sim", fam)
+        ck.cov["bound"]["sim"] = {"depth": depth, "histories": len(cs)}
+        cs = replay(f_single[1].result(), "single-narrow")
+        ck.cov["dtypes_single"] = sorted({c["init"]["dt"] for c in cs} | {"f8", "i8"})
+        n2 = len(cs)
+        cs = replay(f_single[0].result(), "single-wide")
+        ck.cov["bound"]["single"] = {"NUin": nu, "NUout": nu, "Diag": [diag, diag2], "histories": len(cs) + n2, "float64/int64": len(cs), "other dtypes": n2}
+        # verdicts in a fixed order, whatever the completion order of the validation runs
+        for job in sorted(jobs, key=lambda j: j[0]):
+            _collect(ck, job, stats)
     ck.cov["exhaustive"] = True
     ck.cov["steps_replayed"] = stats["steps"]
     ck.cov["steps_returned"] = stats["ok"]
     ck.cov["steps_raised"] = stats["raise"]
+    ck.cov["result_dtypes"] = dict(sorted(stats["rdt"].items()))
     ck.cov["evaluations"] = ck.cov["traces_validated_against_impl"]
     ck.cov["distinct_nontrivial"] = len(nontrivial)
     ck.cov["rule"] = "histories of conversion calls exported by TLC (single step exhaustive over the alphabet, two/three steps inside one equivalence, simulated mixed chains) replayed on real quantities; non-trivial = a distinct (equivalence, from, to, entry point, input unit, target unit, keyword setting, dtype, shape, value pair) whose request is covered (two different member dimensions), so that a formula value is computed and compared"
